@@ -314,6 +314,10 @@ def gen_config(ch):
                 else:
                     ops.append((k,))
             cfg["bops"].append(ops)
+        # a stub without breakpoint support: 'Z' / 'z' get the empty reply
+        # the GDB manual prescribes for unsupported commands - still one
+        # incoming message that must reach the waiting command exactly once
+        cfg["no_z"] = bool(ch.chance(1, 4, "no_z"))
     return cfg
 
 
@@ -629,6 +633,7 @@ class World:
         self.replies_taken = []
         self.pending_stops = []
         self.stub_writes = []
+        self.empty_replies = 0
         self.stub_mem = {}
         self.leftover = []
         self.leftover_before_probe = None
@@ -740,7 +745,11 @@ class World:
             peer.enqueue(b"OK")
         elif cmd.startswith(("Z", "z", "P")):
             self.stub_writes.append(cmd)
-            peer.enqueue(b"OK")
+            if self.cfg.get("no_z") and cmd[0] in "Zz":
+                self.empty_replies += 1
+                peer.enqueue(b"")
+            else:
+                peer.enqueue(b"OK")
         elif cmd == "g":
             peer.enqueue(REGS_HEX.encode())
         elif cmd.startswith("p"):
@@ -1163,6 +1172,8 @@ def judge_driver(w, complete, closed, clean, died, got, probe):
 
     viol = []
     probe("driver_runs")
+    if w.empty_replies:
+        probe("driver_empty_reply", w.empty_replies)
     if w.forced_stop:
         probe("driver_stop_overtook_step", w.forced_stop)
     stops = [m for m in got if m.startswith(("T", "S"))]
@@ -1235,7 +1246,7 @@ def apply_scenario(cfg, idx):
         # priority-weighted schedules: the reply-queue races
         cfg.update(topology=1, fault_mode=0, enabled=[], weighted_sched=1,
                    stepmix=False, greeting=None, slow_replies=False,
-                   upper_hex=False, slow_subscriber=0, callers=[],
+                   upper_hex=False, slow_subscriber=0, callers=[], no_z=False,
                    peer_packets=[], marathon=False, long_payloads=False,
                    line_preempt=False, stall_phase=0)
         cfg["bops"] = [[("read_mem", 0x64, 2), ("write_mem", 0x64, [1, 2]),
